@@ -15,12 +15,15 @@ CONSTANTS MaxEntries,  \* entries per namespace
           MaxRefuse,   \* refused calls per behaviour
           MaxSched,    \* schedule steps per behaviour
           MaxGen,      \* reopen generations
+          UseBlobs,    \* which contents (subset of MCAllBlobs)
+          InPlace,     \* BOOLEAN: include modify_file_in_place (enabled after a reopen)
           CfgIds,      \* which configurations (indices into Cfgs)
           Modes,       \* consistency modes of the object: subset of {"lazy", "always"}
           Dump         \* "none" | "hist" | "edges"
 
 MCNames   == {"a", "b", "l"}
-MCBlobs   == {"z", "o"}
+MCAllBlobs == {"z", "s", "t", "e", "o", "q"}
+MCBlobs   == UseBlobs
 MCTargets == {"t1"}
 MCCode == [n \in MCNames |->
     CASE n = "a" -> [iso |-> <<65,65,46,59,49>>, rr |-> <<97,97>>, jol |-> <<97,97>>, udf |-> <<97,97>>]
@@ -29,7 +32,8 @@ MCCode == [n \in MCNames |->
                      rr |-> <<108,111,110,103,110,97,109,101,57>>,
                      jol |-> <<108,111,110,103,110,97,109,101,57>>,
                      udf |-> <<108,111,110,103,110,97,109,101,57>>]]
-MCBlobLen == [b \in MCBlobs |-> IF b = "z" THEN 0 ELSE 2049]
+MCBlobLen == [b \in MCAllBlobs |-> CASE b = "z" -> 0 [] b = "s" -> 1 [] b = "t" -> 2 [] b = "e" -> 2048
+                                        [] b = "o" -> 2049 [] b = "q" -> 4096]
 
 VARIABLES st, h, nref, nsched
 
@@ -77,12 +81,24 @@ CandsOf(s) ==
    \cup UNION {{[a |-> "RmFile", ns |-> n, p |-> p] : p \in Known(Tree(s, n))} : n \in nss}
    \cup UNION {{[a |-> x, ns |-> n, p |-> p] : x \in {"SetHidden", "ClearHidden"}, p \in Known(Tree(s, n))} :
             n \in {ns \in {"iso", "jol"} : HasNs(s, ns)}}
+   \cup (IF InPlace /\ s.gen > 0 /\ ~s.dirty
+         THEN {[a |-> "ModifyInPlace", p |-> p, blob |-> b] : p \in Known(s.iso), b \in Blobs} ELSE {})
    \cup {[a |-> "AddSymlink", iso |-> t[1], jol |-> NoPath, udf |-> t[3], t |-> tg] :
             tg \in Targets, t \in {u \in tri : u[2] = NoPath}}
 
+\* paths removed earlier in this behaviour: the interesting absent paths to query
+RemovedPaths(hh, ns) ==
+    {hh[k].p : k \in {j \in 1..Len(hh) : hh[j].a \in {"RmFile", "RmHardLink"} /\ hh[j].ns = ns}}
+    \cup (IF ns = "iso" THEN {hh[k].iso : k \in {j \in 1..Len(hh) : hh[j].a = "RmDir" /\ hh[j].iso # NoPath}}
+          ELSE IF ns = "jol" THEN {hh[k].jol : k \in {j \in 1..Len(hh) : hh[j].a = "RmDir" /\ hh[j].jol # NoPath}}
+          ELSE IF ns = "udf" THEN {hh[k].udf : k \in {j \in 1..Len(hh) : hh[j].a = "RmDir" /\ hh[j].udf # NoPath}}
+          ELSE {})
+QueryNs(s) == {ns \in {"iso", "rrv", "jol", "udf"} : HasNs(s, ns)}
 Sched(s) ==
-    {[a |-> "ForceConsistency"], [a |-> "Write"], [a |-> "Walk", ns |-> "iso"]}
-    \cup {[a |-> "Query", ns |-> "iso", p |-> p] : p \in DOMAIN s.iso}
+    {[a |-> "ForceConsistency"], [a |-> "Write"]}
+    \cup {[a |-> "Walk", ns |-> ns] : ns \in QueryNs(s)}
+    \cup UNION {{[a |-> "Query", ns |-> ns, p |-> p] :
+                  p \in DOMAIN Tree(s, ns) \cup RemovedPaths(h, IF ns = "rrv" THEN "iso" ELSE ns)} : ns \in QueryNs(s)}
 
 Size(s) == Cardinality(DOMAIN s.iso) <= MaxEntries /\ Cardinality(DOMAIN s.jol) <= MaxEntries
            /\ Cardinality(DOMAIN s.udf) <= MaxEntries
@@ -125,7 +141,8 @@ Reject == /\ st.phase = "live" /\ Len(h) <= MaxLen /\ nref < MaxRefuse
 \* a schedule step (must be a stuttering step of the abstract image)
 Schedule == /\ st.phase = "live" /\ Len(h) <= MaxLen /\ nsched < MaxSched
             /\ \E a \in Sched(st) :
-                 /\ st' = Step(st, a).acc
+                 /\ st' = st        \* accepted or refused (absent path), nothing changes
+                 /\ Step(st, a).out \in {"ok", "refuse"}
                  /\ h' = Append(h, a)
             /\ nsched' = nsched + 1
             /\ UNCHANGED nref
@@ -147,11 +164,12 @@ InvStateOK == StateOK(st)
 RejectChangesNothing == [][nref' = nref + 1 => st' = st]_vars
 ScheduleStepsAreStuttering == [][nsched' = nsched + 1 => st' = st]_vars
 \* content disappears only with its last reference and keeps its bytes while it lives
+IsAct(n) == h' # h /\ h'[Len(h')].a = n /\ nref' = nref
 ContentLivesUntilLastName ==
     [][st.phase = "live" /\ st'.phase = "live" =>
          \A i \in DOMAIN st.blob :
             /\ (i \notin DOMAIN st'.blob => ~Live(st', i))
-            /\ (i \in DOMAIN st'.blob => st'.blob[i] = st.blob[i])]_vars
+            /\ (i \in DOMAIN st'.blob => st'.blob[i] = st.blob[i] \/ IsAct("ModifyInPlace"))]_vars
 GenMonotone == [][st'.gen >= st.gen \/ st'.phase = "uninit"]_vars
 IsReopen == h' # h /\ h'[Len(h')].a = "Reopen"
 \* a reopen shows the same names, kinds, flags, targets and contents (inode numbers may change)
@@ -160,7 +178,6 @@ Shape3(s, ns) == <<ns, [p \in DOMAIN Tree(s, ns) |->
 ReopenPreservesView ==
     [][IsReopen => {Shape3(st', ns) : ns \in NSs} = {Shape3(st, ns) : ns \in NSs}]_vars
 \* removing one link removes exactly one name; removing a file removes exactly its link class
-IsAct(n) == h' # h /\ h'[Len(h')].a = n /\ nref' = nref
 AllNames(s) == {<<ns, p>> \in NSs \X (DOMAIN s.iso \cup DOMAIN s.jol \cup DOMAIN s.udf) : p \in DOMAIN Tree(s, ns)}
 RmHardLinkRemovesOneName ==
     [][IsAct("RmHardLink") => LET a == h'[Len(h')] IN AllNames(st') = AllNames(st) \ {<<a.ns, a.p>>}]_vars
@@ -179,7 +196,8 @@ ActionProps ==
     /\ Holds(st.phase = "live" /\ st'.phase = "live" =>
                \A i \in DOMAIN st.blob :
                   /\ (i \notin DOMAIN st'.blob => ~Live(st', i))
-                  /\ (i \in DOMAIN st'.blob => st'.blob[i] = st.blob[i]), "ContentLivesUntilLastName")
+                  /\ (i \in DOMAIN st'.blob => st'.blob[i] = st.blob[i] \/ IsAct("ModifyInPlace")),
+             "ContentLivesUntilLastName")
     /\ Holds(st'.gen >= st.gen \/ st'.phase = "uninit", "GenMonotone")
     /\ Holds(IsReopen => /\ TRUE
                           /\ {Shape3(st', ns) : ns \in NSs} = {Shape3(st, ns) : ns \in NSs}
